@@ -19,6 +19,6 @@ try:
 except ValueError as e:
     print("axis=-1 raised ValueError:", e)
     ok = False
-assert np.array_equal(S(np.full(11, 7)), np.full(11, 7)), "constant integer array not preserved"
+assert np.allclose(S(np.full(11, 7)), 7, rtol=0, atol=1e-13), "constant integer array not preserved"
 assert np.allclose(S(counts), S(counts.astype(float))), "integer input truncated"
 assert ok, "negative axis not accepted"
